@@ -124,3 +124,34 @@ Theorem C09_primary_all_haplotigs_last : forall asms root v l,
     /\ map Model.Stats.na_scaffolds l0 = map oa_scaffolds (Proofs.StatsSpec.kept asms).
 Proof. exact Proofs.StatsSpec.primary_all_haplotigs_last. Qed.
 Print Assumptions C09_primary_all_haplotigs_last.
+
+(* ---- "Unplaced scaffolds ... are identified by their names beginning with
+   the haplotype's name followed by an underscore": the haplotype read off a
+   scaffold name, re.search(r"^([^_]+)_.+_\d+$", name) *)
+From Tola Require Proofs.HapPrefix.
+Theorem C09_hap_prefix_of_shaped_name : forall h mid ds,
+  h <> [] -> forallb Proofs.HapPrefix.not_us h = true ->
+  mid <> [] -> forallb Proofs.HapPrefix.not_nl mid = true ->
+  ds <> [] -> forallb is_digit ds = true ->
+  haplotype_prefix_of_name (h ++ Proofs.HapPrefix.us :: mid ++ Proofs.HapPrefix.us :: ds) = Some h.
+Proof. exact Proofs.HapPrefix.hap_prefix_of_shaped_name. Qed.
+Print Assumptions C09_hap_prefix_of_shaped_name.
+
+Theorem C09_hap_prefix_some_shape : forall name h,
+  haplotype_prefix_of_name name = Some h ->
+  h <> [] /\ forallb Proofs.HapPrefix.not_us h = true
+  /\ exists after, name = h ++ Proofs.HapPrefix.us :: after
+     /\ exists mid ds, List.rev after = ds ++ Proofs.HapPrefix.us :: mid /\ ds <> []
+                       /\ forallb is_digit ds = true /\ mid <> [].
+Proof. exact Proofs.HapPrefix.hap_prefix_some_shape. Qed.
+Print Assumptions C09_hap_prefix_some_shape.
+
+Theorem C09_hap_prefix_examples :
+  haplotype_prefix_of_name (s "Hap2_scaffold_17") = Some (s "Hap2")
+  /\ haplotype_prefix_of_name (s "HAP1_SUPER_3_unloc_2") = Some (s "HAP1")
+  /\ haplotype_prefix_of_name (s "scaffold_17") = None
+  /\ haplotype_prefix_of_name (s "ptg000012l") = None
+  /\ haplotype_prefix_of_name (s "_x_1") = None
+  /\ haplotype_prefix_of_name (s "Hap2_scaffold_17b") = None.
+Proof. exact Proofs.HapPrefix.hap_prefix_examples. Qed.
+Print Assumptions C09_hap_prefix_examples.
